@@ -155,9 +155,10 @@ def step (_ : Unit) (line : String) : Unit × String :=
     | ["udpsrvunpack", now, hdr, replayed, opened, ps, pl, h] => do
         pure (showR showASL (udpServerUnpack (idCiphers (← optBytes? opened)) (← int? now) (← hdr.toNat?) (← bool? replayed)
           (← ofHex? h) (← ps.toNat?) (← pl.toNat?)))
-    | ["udpcliunpack", now, csid, sessOk, replayed, opened, ps, pl, h] => do
-        pure (showR showASL (udpClientUnpack (idCiphers (← optBytes? opened)) (← int? now) (← csid.toNat?) (← bool? sessOk) (← bool? replayed)
-          (← ofHex? h) (← ps.toNat?) (← pl.toNat?)))
+    | ["udpcliunpack", now, csid, curID, curHas, oldID, oldHas, tooSoon, replayed, opened, ps, pl, h] => do
+        let sess : CliSess := ⟨← curID.toNat?, ← bool? curHas, ← oldID.toNat?, ← bool? oldHas⟩
+        pure (showR showASL (udpClientUnpack Gen.C06.clientUnpackerGuardsNilAEAD (idCiphers (← optBytes? opened)) (← int? now) (← csid.toNat?) sess
+          (← bool? tooSoon) (← bool? replayed) (← ofHex? h) (← ps.toNat?) (← pl.toNat?)))
     | ["udpsrv", now, idLen, found, replayed, opened, ps, pl, h] => do
         pure (showR showASL (udpServerReceive (idCiphers (← optBytes? opened)) (← int? now) (← idLen.toNat?) (← bool? found) (← bool? replayed)
           (← ofHex? h) (← ps.toNat?) (← pl.toNat?)))
